@@ -47,9 +47,13 @@ fn layers(dup: bool) -> (Layers, Vec<LayerKey>) {
     let mut keys = vec![];
     for i in 0..3 {
         let num = if dup && i == 1 { LAYER_NUMS[0] } else { LAYER_NUMS[i] };
-        let layer = Layer::new(num, LAYER_NAMES[i])
+        let mut layer = Layer::new(num, LAYER_NAMES[i])
             .add_pairs(&[(0, LayerPurpose::Drawing), (1, LayerPurpose::Pin), (2, LayerPurpose::Label), (3, LayerPurpose::Obstruction)])
             .expect("MACHINERY: layer pairs");
+        if dup && i != 1 {
+            // the same purposes under a second number each (the later number is the one a purpose exports to)
+            layer = layer.add_pairs(&[(44, LayerPurpose::Drawing), (45, LayerPurpose::Pin), (47, LayerPurpose::Obstruction)]).expect("MACHINERY: layer pairs");
+        }
         keys.push(l.add(layer));
     }
     (l, keys)
@@ -364,6 +368,18 @@ pub fn convert_once(case: &Case) -> Result<(Vec<(String, Vec<i16>)>, String), St
                 Err(x) => Ok((vec![], format!("Err: {x:?} / {x}"))),
             }
         }
+        9 if case.two_cells => {
+            // raw -> protobuf of an instance without a name whose rotation is not a whole number of degrees (the schema
+            // stores whole degrees): the error is the result
+            let mut lib = build_raw(case);
+            let leaf = lib.cells[0].clone();
+            let lay = Layout { name: "fractional_angle".into(), insts: vec![Instance { inst_name: String::new(), cell: leaf, loc: Point::new(1, 2), reflect_vert: false, angle: Some(22.5) }], elems: vec![], annotations: vec![] };
+            lib.cells.push(Ptr::new(Cell::from(lay)));
+            match lib.to_proto() {
+                Ok(_) => Ok((vec![], "accepted a fractional angle (not judged here)".to_string())),
+                Err(x) => Ok((vec![], format!("Err: {x:?} / {x}"))),
+            }
+        }
         9 => {
             // raw -> protobuf on a library whose cells instantiate each other in a ring: the error is the result
             let n = 1 + case.port_layers.max(1);
@@ -499,7 +515,7 @@ impl CaseDriver for C20 {
     }
     fn describe(&self, _tier: Tier) -> Describe {
         Describe {
-            rule: "inputs: raw libraries with 1-2 abstract cells whose 1-2 ports carry shapes on 1-3 layers and whose blockages sit on 0/2/3 layers (unordered maps with 1-3 keys, every insertion order), 1-2 shapes per layer, plus a layout cell with elements on 3 layers x 2 purposes, an annotation and a reflected+rotated instance; LEF / protobuf / GDSII inputs derived from them in a fixed order. Conversions: raw->GDSII (bytes, dates pinned), raw->protobuf (prost bytes), raw->LEF (serde_json), LEF->raw->LEF, protobuf->raw->protobuf, GDSII->raw, raw->GDSII->raw, gridded layout->raw (raw results as an order-preserving dump; the gridded cell optionally holds two instances abutting along the tracks), and two conversions whose result is an error - GDSII->raw on struct rings of 2..4 closed by SREF / AREF (optionally a second ring, either listing order) raw->protobuf on cell rings, raw->GDSII / raw->protobuf of an element whose layer does not define its purpose, and gridded layout->raw of a cut lying under an instance / of two overlapping cuts - where the rendered error is the compared output. Configurations: every input is rebuilt / re-imported with fresh HashMaps until each of the k! iteration orders of every map the exporter walks has been observed on the very map objects (minimum 32, cap 4096 rebuilds; coverage measured and reported as tags), plus fresh OS processes; conversions that expose no map (GDSII->raw) are repeated 32 times - unordered containers internal to a converter cannot be enumerated, only exercised. Two of the three layers may share a layer number. A state is (input, conversion); non-trivial = some map has >= 2 keys.".into(),
+            rule: "inputs: raw libraries with 1-2 abstract cells whose 1-2 ports carry shapes on 1-3 layers and whose blockages sit on 0/2/3 layers (unordered maps with 1-3 keys, every insertion order), 1-2 shapes per layer, plus a layout cell with elements on 3 layers x 2 purposes, an annotation and a reflected+rotated instance; LEF / protobuf / GDSII inputs derived from them in a fixed order. Conversions: raw->GDSII (bytes, dates pinned), raw->protobuf (prost bytes), raw->LEF (serde_json), LEF->raw->LEF, protobuf->raw->protobuf, GDSII->raw, raw->GDSII->raw, gridded layout->raw (raw results as an order-preserving dump; the gridded cell optionally holds two instances abutting along the tracks), and two conversions whose result is an error - GDSII->raw on struct rings of 2..4 closed by SREF / AREF (optionally a second ring, either listing order) raw->protobuf on cell rings, raw->GDSII / raw->protobuf of an element whose layer does not define its purpose, raw->protobuf of an unnamed instance rotated by 22.5 degrees, and gridded layout->raw of a cut lying under an instance / of two overlapping cuts - where the rendered error is the compared output. Configurations: every input is rebuilt / re-imported with fresh HashMaps until each of the k! iteration orders of every map the exporter walks has been observed on the very map objects (minimum 32, cap 4096 rebuilds; coverage measured and reported as tags), plus fresh OS processes; conversions that expose no map (GDSII->raw) are repeated 32 times - unordered containers internal to a converter cannot be enumerated, only exercised. Two of the three layers may share a layer number, and then the other layers also define each purpose under two numbers. A state is (input, conversion); non-trivial = some map has >= 2 keys.".into(),
             assumptions: vec!["an unordered map in the raw data model itself is rendered sorted (a map has no order); every ordered container must keep its order".into()],
             excluded: vec!["gridded layout -> raw is exercised on three stacks x a few cells only (the C08 alphabet is not re-enumerated here)".into()],
             technique: "exhaustive enumeration of hash-map iteration orders (observed on the real map objects) x inputs x conversions; outputs compared byte-for-byte within and across processes".into(),
